@@ -539,6 +539,28 @@ def ctlNoSplitList : List STree → Bool
   | t :: ts => ctlNoSplit t && ctlNoSplitList ts
 end
 
+/-! ### the order of the instances below nested map calls -/
+
+/-- the cartesian product, first list fastest (the loop of `MakeForkIds`) -/
+def prodFF {α : Type} : List (List α) → List (List α)
+  | [] => [[]]
+  | xs :: rest => (prodFF rest).flatMap fun tail => xs.map (· :: tail)
+
+/-- the cartesian product, first list slowest (den: for each index of the outer call, everything below) -/
+def prodFS {α : Type} : List (List α) → List (List α)
+  | [] => [[]]
+  | xs :: rest => xs.flatMap fun x => (prodFS rest).map (x :: ·)
+
+/-- a chain of nested statically sized map calls around one stage node -/
+def chainT : List (String × List Idx) → SNode → STree
+  | [], n => .node n
+  | (c, ixs) :: rest, n => .sub c false ixs true [chainT rest n]
+
+/-- the fork ids of den's order for a chain of map calls (outermost first) -/
+def denForks : List (String × List Idx) → List (List (String × Idx))
+  | [] => [[]]
+  | (c, ixs) :: rest => ixs.flatMap fun ix => (denForks rest).map ((c, ix) :: ·)
+
 /-- a stage instance of den as the code delivers it: "no value" (`dnull`) rendered as JSON null -/
 def eraseInst (i : Inst) : Inst := { i with args := J.erase i.args }
 
